@@ -50,22 +50,28 @@ let run_b (imp : string) (inp : string) (obs : string) : string * string =
         | _ -> failwith ("unknown importer " ^ imp)) in
   let (base, pr, rows) = split_observed obs in
   let cls = match String.index_opt base ' ' with Some i -> String.sub base 0 i | None -> base in
-  (* us.interactivebrokers: the executable statement-level specification on the binary's stdout *)
+  (* the executable statement-level specification (Spec/ImpSpecIB.v, Spec/ImpStmtB.v) on the binary's stdout *)
   let statement_spec () =
-    if imp <> "interactivebrokers" then "ok"
-    else
-      let acc k = match K.account_flag (str_of_string (match flag k with Some s -> s | None -> "")) with
-        | K.AAcc x -> Some x | _ -> None in
-      let recs = List.fold_right (fun it acc -> match it, acc with
-        | K.CRec r, Some l -> Some (r :: l) | _, _ -> None) (decode_items items) (Some []) in
-      match acc "acct", acc "div", acc "int", acc "tax", acc "fee", acc "trading", recs with
-      | Some a, Some d, Some i, Some w, Some f, Some t, Some rs ->
-        (match K.ibs_statement_output a d i w f t rs with
-         | None -> "FAIL:ibs_wf: the statement is outside the hypothesis of C13_interactivebrokers_faithful"
-         | Some out ->
-           if "OK " ^ esc (string_of_str out) = base then "ok"
-           else "FAIL:ibs_statement_output: stdout is not the journal of the statement's items")
-      | _ -> "FAIL:ibs_wf: account flags or records of a well-formed case do not decode" in
+    let acc k = match K.account_flag (str_of_string (match flag k with Some s -> s | None -> "")) with
+      | K.AAcc x -> Some x | _ -> None in
+    let recs = records_of (decode_items items) in
+    let undecoded = "FAIL:" ^ imp ^ "_statement_wf: account flags or records of a well-formed case do not decode" in
+    match imp, recs with
+    | "interactivebrokers", Some rs ->
+      (match acc "acct", acc "div", acc "int", acc "tax", acc "fee", acc "trading" with
+       | Some a, Some d, Some i, Some w, Some f, Some t ->
+         (match K.ibs_statement_output a d i w f t rs with
+          | None -> "FAIL:ibs_wf: the statement is outside the hypothesis of C13_interactivebrokers_faithful"
+          | Some out ->
+            if "OK " ^ esc (string_of_str out) = base then "ok"
+            else "FAIL:ibs_statement_output: stdout is not the journal of the statement's items")
+       | _ -> "FAIL:ibs_wf: account flags or records of a well-formed case do not decode")
+    | "revolut2", Some rs ->
+      (match acc "acct", acc "fee" with
+       | Some a, Some f -> statement_verdict imp base (K.r2_statement_output a f rs)
+       | _ -> undecoded)
+    | ("revolut" | "wise" | "swissquote"), Some _ -> "ok"   (* no executable statement-level specification yet *)
+    | _ -> undecoded in
   let spec =
     if kind = "wf" then
       if cls <> "OK" then "FAIL:well-formed statement not imported: " ^ clip 60 base
